@@ -102,6 +102,17 @@ func (r *run) dispatch(e Ev) {
 		if d := a.dt(e.D); d != nil {
 			r.local(a, d, apiOf(d.pub), e)
 		}
+	case "burst":
+		// a long offline period: many local operations before the next sync
+		a := r.actor(e.A)
+		if d := a.dt(e.D); d != nil {
+			n := 100 + mod(e.N, 150)
+			for i := 0; i < n; i++ {
+				b := Ev{T: "local", A: e.A, D: e.D, Op: []string{"put", "ins", "dput", "dins"}[i%4], K: fmt.Sprintf("b%d", i%7), Pos: i % 5, Delta: int32(i + 1), V: []interface{}{float64(i)}}
+				r.local(a, d, apiOf(d.pub), b)
+			}
+			r.probe("burst")
+		}
 	case "tx":
 		a := r.actor(e.A)
 		if d := a.dt(e.D); d != nil {
